@@ -341,3 +341,55 @@ func c01DecisionTable(c *Ctx, rule string) {
 	}
 	c.Check(rule, fnName(fn)+"|additional-section-on-every-path-to-final-write", mustAddl, addl[0].Pos(), "glue / additional addresses are computed for the answer and for the authority section before any non-REFUSED response is written")
 }
+
+// c01WalkName — C01.walk-name: every zone-cut search (Reader.IsAuthoritative) and the answer search (FindAnswer) made
+// by the query entry point start from the packed QUERY name, possibly with leading labels removed; never from the
+// zone cut an earlier search returned. nc: "a referral at or below a delegation" — the closest enclosing zone cut of
+// the query name (or of its parent for DS) is only found by walking up from the query name itself; starting above the
+// cut found first (seed c01g: the DS re-evaluation popped a label off the cut) skips the delegation and answers
+// authoritatively from the parent zone.
+func c01WalkName(c *Ctx, rule string) {
+	c.Rule(rule, "A8 value provenance in ServeDNSWithRCODE: the name argument of every Reader.IsAuthoritative call and of FindAnswer is the buffer the question name was packed into (dns.PackDomainName) or a re-slice of it; no value returned by an IsAuthoritative call flows into the name argument of another zone search")
+	fn := c.Func("dnsserver", "(*FBDNSDB).ServeDNSWithRCODE")
+	c.Examined(fn)
+	// the packed-name buffer: first argument slice of dns.PackDomainName's destination
+	var packed ssa.Value
+	for _, ci := range callInstrs(fn) {
+		if f := calleeOf(ci.Common()); f != nil && f.Name() == "PackDomainName" && len(ci.Common().Args) >= 2 {
+			packed = ci.Common().Args[1]
+		}
+	}
+	if packed == nil {
+		c.Undecided(rule, fnName(fn)+"|packed-name", fn.Pos(), "dns.PackDomainName call not found")
+		return
+	}
+	packedSrc := sourcesOf(packed)
+	n := 0
+	for _, ci := range callInstrs(fn) {
+		cc := ci.Common()
+		if !cc.IsInvoke() || (cc.Method.Name() != "IsAuthoritative" && cc.Method.Name() != "FindAnswer") || len(cc.Args) == 0 {
+			continue
+		}
+		n++
+		fromPacked, fromSearch := false, ""
+		for v := range backSlice(cc.Args[0], func(v ssa.Value) bool {
+			// do not look through calls other than re-slicing
+			_, isCall := v.(*ssa.Call)
+			return isCall
+		}) {
+			for s := range sourcesOf(v) {
+				if packedSrc[s] {
+					fromPacked = true
+				}
+			}
+			if ex, ok := v.(*ssa.Extract); ok {
+				if call, ok := ex.Tuple.(*ssa.Call); ok && call.Common().IsInvoke() && call.Common().Method.Name() == "IsAuthoritative" {
+					fromSearch = "result #" + fmt.Sprint(ex.Index) + " of an earlier IsAuthoritative"
+				}
+			}
+		}
+		c.Check(rule, fmt.Sprintf("%s|%s#%d|name-is-the-query-name", fnName(fn), cc.Method.Name(), n), fromPacked && fromSearch == "", ci.Pos(),
+			fmt.Sprintf("derives from the packed query name: %v; derives from %s", fromPacked, map[bool]string{true: "nothing else", false: fromSearch}[fromSearch == ""]))
+	}
+	c.Floor(rule, 3)
+}
